@@ -1,7 +1,7 @@
-//! C07: not implemented yet.
+//! C07: ROLLBACK / ROLLBACK TO restore the earlier state (engine in dmlengine.rs, focus = transactions).
+use super::dmlengine::{run_prop, Focus};
 use crate::Args;
 
-pub fn run(_a: &Args) -> i32 {
-    println!("INCONCLUSIVE property=C07 reason=check not implemented yet");
-    2
+pub fn run(a: &Args) -> i32 {
+    run_prop(a, "C07", Focus::Txn, "generated histories with BEGIN / nested SAVEPOINT / RELEASE / ROLLBACK TO / ROLLBACK / COMMIT around inserts, updates and deletes on indexed and unindexed tables with and without integer PK; after every ROLLBACK [TO] every table bag and COUNT(*) must equal the model's snapshot; later statements (re-inserting keys that existed / did not exist at the snapshot) keep being compared. distinct_nontrivial = distinct histories in which at least one rollback was observed")
 }
